@@ -43,5 +43,11 @@ CORPUS = [
         more=[dict(scope='', old="from typing import Union\n", new="import math\nfrom typing import Union\n", mode='text')]),
     Mut('c14-benign-mvn-closed-form-entropy', 'torchtree/distributions/multivariate_normal.py', '', "        kwargs = {self.parameterization: self.parameter.tensor}\n        return torch.distributions.MultivariateNormal(\n            self.loc.tensor, **kwargs\n        ).entropy()\n", "        if self.parameterization == 'scale_tril':\n            half_log_det = self.parameter.tensor.diagonal(dim1=-2, dim2=-1).log().sum(-1)\n        elif self.parameterization == 'covariance_matrix':\n            half_log_det = 0.5 * torch.linalg.slogdet(self.parameter.tensor)[1]\n        else:\n            half_log_det = -0.5 * torch.linalg.slogdet(self.parameter.tensor)[1]\n        dim = self.loc.shape[-1]\n        return 0.5 * dim * (1.0 + math.log(2.0 * math.pi)) + half_log_det\n", benign=True, mode='text',
         more=[dict(scope='', old="from typing import Union\n", new="import math\nfrom typing import Union\n", mode='text')]),
+    Mut('c14-renyi-squeezes-a-size-one-last-axis-of-log-q', 'torchtree/variational/renyi.py', 'VR._call', 'log_w = (1.0 - self.alpha) * (self.p() - self.q())',
+        'log_q = self.q()\nif log_q.dim() > 0 and log_q.shape[-1] == 1:\n    log_q = log_q.squeeze(-1)\nlog_w = (1.0 - self.alpha) * (self.p() - log_q)',
+        expect=[('C14.T', 'VR._call::sample-shape=[S,K]::K=1::samples-paired-across-draws')],
+        note='the trailing axis of size one may be the K axis of a [S,1] sample shape: [S,1] - [S] is an S x S matrix'),
+    Mut('c14-benign-renyi-squeezes-both-operands', 'torchtree/variational/renyi.py', 'VR._call', 'log_w = (1.0 - self.alpha) * (self.p() - self.q())',
+        'log_d = self.p() - self.q()\nif log_d.dim() > 1 and log_d.shape[-1] == 1:\n    log_d = log_d.squeeze(-1).unsqueeze(-1)\nlog_w = (1.0 - self.alpha) * log_d', benign=True),
 ]
 CORPUS = [m for m in CORPUS if m.id != 'c14-iwae-wrong-axis-size']
